@@ -14,7 +14,6 @@
 package sched
 
 import (
-	"bytes"
 	"fmt"
 	"runtime"
 	"sort"
@@ -117,6 +116,7 @@ type Sched struct {
 	gids    sync.Map // goroutine id -> *Thread
 	started bool
 	ready   sync.WaitGroup
+	inPick  bool // set while the scheduler itself runs harness code (state keys): hooks are no-ops
 }
 
 var active atomic.Pointer[Sched]
@@ -138,24 +138,17 @@ func New(ch Chooser, opts Options) *Sched {
 // Active returns the running scheduler, or nil.
 func Active() *Sched { return active.Load() }
 
-func gid() uint64 {
-	var buf [64]byte
-	n := runtime.Stack(buf[:], false)
-	// "goroutine 123 ["
-	b := buf[:n]
-	b = b[len("goroutine "):]
-	i := bytes.IndexByte(b, ' ')
-	id, _ := strconv.ParseUint(string(b[:i]), 10, 64)
-	return id
-}
-
 // Current returns the controlled thread of the calling goroutine, or nil.
 func Current() *Thread {
 	s := active.Load()
 	if s == nil {
 		return nil
 	}
-	if t, ok := s.gids.Load(gid()); ok {
+	g := gid()
+	if g == 0 {
+		return nil
+	}
+	if t, ok := s.gids.Load(g); ok {
 		return t.(*Thread)
 	}
 	return nil
@@ -175,7 +168,12 @@ func (s *Sched) Go(name string, f func()) *Thread {
 	s.threads = append(s.threads, t)
 	s.ready.Add(1)
 	go func() {
-		s.gids.Store(gid(), t)
+		g := tagCurrent(t.ID)
+		s.gids.Store(g, t)
+		defer func() {
+			s.gids.Delete(g)
+			untagCurrent()
+		}()
 		s.ready.Done()
 		<-t.wake
 		defer func() {
@@ -379,7 +377,9 @@ func (s *Sched) pick(run *Thread) *Thread {
 
 func (s *Sched) stateKey(run *Thread) string {
 	var b []byte
+	s.inPick = true
 	b = append(b, s.opts.StateKey()...)
+	s.inPick = false
 	for _, t := range s.threads {
 		b = append(b, '|')
 		b = strconv.AppendInt(b, int64(t.steps), 10)
@@ -466,7 +466,7 @@ func (s *Sched) resume(from, next *Thread) {
 // park is the heart of every hook: the calling thread announces its next operation and the
 // scheduler decides who runs.
 func (s *Sched) park(t *Thread, label string, acc []Access) {
-	if s.aborted != "" {
+	if s.aborted != "" || s.inPick {
 		return
 	}
 	t.label = label
@@ -502,7 +502,7 @@ func Yield(label string) {
 		return
 	}
 	t := Current()
-	if t == nil || s.aborted != "" {
+	if t == nil || s.aborted != "" || s.inPick {
 		return
 	}
 	t.yielded = true
@@ -533,7 +533,7 @@ func Block(label string, cond func() bool) bool {
 // Controlled reports whether the calling goroutine is a controlled thread of a live execution.
 func Controlled() bool {
 	s := active.Load()
-	return s != nil && s.aborted == "" && Current() != nil
+	return s != nil && s.aborted == "" && !s.inPick && Current() != nil
 }
 
 // AddAccess accumulates a plain access of the statement the thread is about to execute;
